@@ -62,6 +62,16 @@ type Sched struct {
 	Overrun  bool
 	pick     func(runnable []int, last int) int
 	spawn    func(body func())
+	// AllWorkers: every goroutine that can reach a hook is a worker of this scheduler (worlds in which the
+	// rewriter turned every go statement of the instrumented packages into a Spawn). The check "is the
+	// caller the baton holder?" is then skipped: it reads the goroutine id off a stack trace, which costs
+	// tens of microseconds on the deep stacks of a recursive compiler.
+	AllWorkers bool
+	// YieldBudget (0: none): after this many steps the OPTIONAL switch points (Yield) stop being switch
+	// points; locks, channel operations, callbacks and goroutine creation stay. A run that is merely long
+	// (a big input under a dense yield level) then finishes at native speed instead of looking like a run
+	// that makes no progress; MaxSteps remains the bound on the steps that cannot be skipped.
+	YieldBudget int
 	// alone: exactly one worker is alive (set by the scheduler before it hands out the baton, cleared by
 	// Spawn): an optional switch point has nothing to switch to and is skipped. Decided by the
 	// scheduler's own state only, hence as deterministic as everything else here.
@@ -164,7 +174,15 @@ func goid() uint64 {
 // a mutated tree) must never touch scheduler state.
 //
 //go:norace
-func foreign(w *Worker) bool { return w == nil || goid() != w.goid }
+func foreign(w *Worker) bool {
+	if w == nil {
+		return true
+	}
+	if s := active; s != nil && s.AllWorkers {
+		return false
+	}
+	return goid() != w.goid
+}
 
 //go:norace
 func handoff(kind byte, site string) {
@@ -201,6 +219,9 @@ func Yield(site string) {
 		return
 	}
 	if s.alone {
+		return
+	}
+	if s.YieldBudget > 0 && len(s.Steps) >= s.YieldBudget {
 		return
 	}
 	handoff(stYield, site)
